@@ -1546,7 +1546,7 @@ func TestVerifC04(t *testing.T) {
 	c04Prelude(t, out)
 
 	r := vfNewRand(out.Seed)
-	nHist := out.Scale(200, 5000)
+	nHist := out.Scale(200, 3000)
 	totalOps, maxOps := 0, 0
 	for i := 0; i < nHist; i++ {
 		hr := r.Fork(uint64(i))
